@@ -41,6 +41,9 @@ type Cfg struct {
 	Env        []string // extra environment (VERIF_POINTS=..., ...)
 	LogLevel   string
 	NoService  bool // do not listen on the mesh service "control"
+	// IgnoreSIGINT starts the daemon with SIGINT ignored, the disposition a daemon inherits under nohup or as a
+	// background job of a non-interactive shell (and passes on to its command runners).
+	IgnoreSIGINT bool
 }
 
 // Daemon is a supervised daemon process.
@@ -184,6 +187,11 @@ func (d *Daemon) startOnce(env ...string) error {
 	if len(d.Wrap) > 0 {
 		args = append(append([]string{}, d.Wrap[1:]...), append([]string{d.Bin}, args...)...)
 		bin = d.Wrap[0]
+	}
+	if d.IgnoreSIGINT && len(d.Wrap) == 0 {
+		// an ignored signal stays ignored across exec; the shell is replaced by the daemon (same pid)
+		args = append([]string{"-c", `trap "" INT; exec "$@"`, "sh", bin}, args...)
+		bin = "/bin/sh"
 	}
 	cmd := exec.Command(bin, args...)
 	cmd.Stdout = f
